@@ -2,6 +2,7 @@ package rules
 
 import (
 	"go/types"
+	"strings"
 
 	"golang.org/x/tools/go/ssa"
 
@@ -58,7 +59,7 @@ func runC12(c *eng.Ctx, tier string) {
 		bases := map[ssa.Value]bool{}
 		eng.Instrs(f, func(in ssa.Instruction) {
 			if fa, ok := in.(*ssa.FieldAddr); ok {
-				if fr, _ := eng.FieldOfAddr(fa); fr.Is(setecPkg, "Store", "active") {
+				if fr, _ := eng.FieldOfAddr(fa); eng.IsNamed(fr.Owner, setecPkg, "Store") && strings.HasPrefix(string(keyStore), "setec.Store."+fr.Name+".") {
 					bases[eng.Origin(fa.X)] = true
 				}
 			}
